@@ -86,8 +86,11 @@ WhyWrite ==
        ELSE "ok"
 WhyRecvEnd == IF pc # "batch" THEN "batch-ended-during-adoption" ELSE "ok"
 WhyClear == IF pc # "batch" \/ ~abort THEN "clear-without-adoption" ELSE "ok"
-(* where the generator restarts is bookkeeping no listed property constrains *)
-WhyReset == "ok"
+(* the generator restarts right after the adopted subset: this is what makes  *)
+(* the restart index grow strictly and `while start_index >= 0` end (C03)     *)
+WhyReset ==
+  IF E.index # startIndex THEN "restart-index-is-not-the-adopted-subset-plus-one"
+  ELSE "ok"
 WhyScheck ==
   IF pendSeq # 0 THEN "accepted-candidate-not-written"
   ELSE IF E.base # exprs THEN "sequential-check-not-against-current-input"
